@@ -207,7 +207,35 @@ class Run:
         return out + self.extra
 
     # ---- deciding ---------------------------------------------------------------------------------------------------
+    def pin_trusted(self):
+        """A contract marked `trusted` on a function of /repo was accepted for the body that was read when the sidecar was written
+        (trusted_bodies.json pins its hash).  When that body changes the trust no longer covers it: the contract is still used at call
+        sites, but the check says so with a weak obligation — a violation only if the property's replay shows a failing input, else undecided."""
+        p = os.path.join(ROOT, "trusted_bodies.json")
+        pins = json.load(open(p)) if os.path.exists(p) else {}
+        self.trusted_pins = {}
+        used = {r.qual for r in self.fn_results}
+        for q, c in sorted(self.eng.contracts.items()):
+            q0 = q.split("#")[0].split("@")[0]
+            if not getattr(c, "trusted", None) or q0 not in self.repo.qual or q in used or getattr(c, "fn_override", None) or q0.startswith("lemmas"):
+                continue
+            h = self.repo.body_hash(self.repo.qual[q0])
+            self.trusted_pins[q0] = h
+            if os.environ.get("VERIF_PIN_TRUSTED"):
+                pins[q0] = h            # maintenance mode (tools/pin_trusted.sh, after auditing a changed body): never set by a registered command
+                continue
+            if pins.get(q0) != h:
+                self.syntactic(f"{q0}:trusted-body-unchanged", "trust", False,
+                               f"body hash {h}, pinned {pins.get(q0, 'none')}: the trusted contract was accepted for another body", where=q0,
+                               meta={"clause": f"trusted: {str(c.trusted)[:160]}", "weak": True})
+
     def finish(self):
+        self.pin_trusted()
+        if os.environ.get("VERIF_PIN_TRUSTED"):
+            p = os.path.join(ROOT, "trusted_bodies.json")
+            pins = json.load(open(p)) if os.path.exists(p) else {}
+            pins.update(self.trusted_pins)
+            json.dump(dict(sorted(pins.items())), open(p, "w"), indent=1)
         obs = self.all_obligations()
         self.t_build = time.time() - self.t0
         discharge(obs, self.eng.rules, seed=self.seed, extra_axioms=getattr(self.eng, "background", None))
@@ -335,13 +363,15 @@ class Run:
                "path": [f"{l}={b}" for l, b in o.meta.get("trail", [])][-30:],
                "verifier": o.result["backend"], "verifier_output": o.result["model"], "replay": None}
         outcome = None
-        for rp in self.replayers:
+        for rp in self.replayers:            # the first companion that shows a failing input decides; otherwise the last answer is recorded
             try:
-                outcome = rp(o)
+                got = rp(o)
             except Exception as e:  # noqa
-                outcome = {"reproduced": False, "error": repr(e), "trace": traceback.format_exc()[-1500:]}
-            if outcome is not None:
-                break
+                got = {"reproduced": False, "error": repr(e), "trace": traceback.format_exc()[-1500:]}
+            if got is not None:
+                outcome = got
+                if got.get("reproduced"):
+                    break
         rec["replay"] = outcome
         reproduced = bool(outcome and outcome.get("reproduced"))
         with open(path, "w") as f:
@@ -511,6 +541,69 @@ THOROUGH_COMPANIONS = {
     "C18": [("cli_diff.py", [["1"], ["2"]])],
     "C19": [("total_diff.py", [[]])],
 }
+
+
+def witnesses_for(pid, o, failures, name_fn):
+    """the companion failures that may serve as a witness for obligation `o`: failures matched by a recorded known finding are witnesses only
+    for the obligations of that finding; every other obligation (in particular one that is merely undecided or outside the subset) must be
+    reproduced by a failure no known finding explains — otherwise a recorded defect would be re-reported under another obligation's name"""
+    known = [k for k in load_known().get("known", []) if k.get("property") == pid]
+
+    def hit(k, name):
+        return bool(re.search(k["obligation"], name) or (k.get("companion") and re.search(k["companion"], name)))
+    mine = [k for k in known if re.search(k["obligation"], o.name)]
+    out = []
+    for f in failures:
+        n = name_fn(f)
+        ks = [k for k in known if hit(k, n)]
+        if (mine and any(k in mine for k in ks)) or (not mine and not ks):
+            out.append(f)
+    return out
+
+
+def companion_replayer(run, pid, script, args=None, name_fn=None, only=None, how=None, timeout=1800):
+    """a replayer backed by a bounded companion: the first failure (that no known finding explains, see witnesses_for) is the failing input.
+    `only(o)` restricts it to the obligations the companion can speak about."""
+    cache = {}
+    stem = script[:-3]
+    name_fn = name_fn or (lambda f: failure_name(stem, f))
+
+    def replay(o):
+        if only is not None and not only(o):
+            return None
+        if "d" not in cache:
+            cache["d"] = run_child(run.repo.root, script, args if args is not None else [str(run.seed)], timeout=timeout)
+        d = cache["d"]
+        if "error" in d:
+            return {"reproduced": False, "companion_error": str(d)[:300]}
+        fl = witnesses_for(pid, o, d.get("failures", []) or [], name_fn)
+        if fl:
+            return {"reproduced": True, "failing_case": fl[0], "how": how or f"replay/{script}"}
+        return {"reproduced": False, "searched": {k: v for k, v in d.items() if k != "failures"}}
+    return replay
+
+
+def bounded_companion(run, pid, script, args=None, name_fn=None, what="", per_name=True, timeout=1800):
+    """run a companion as a bounded part of the check: failures matched by a known finding are listed as such, the others are violations"""
+    stem = script[:-3]
+    name_fn = name_fn or (lambda f: failure_name(stem, f))
+    d = run_child(run.repo.root, script, args if args is not None else [str(run.seed)], timeout=timeout)
+    if "error" in d:
+        raise RuntimeError(f"replay/{script} failed: {d}")
+    known = [k for k in load_known().get("known", []) if k.get("property") == pid]
+    viol, hits = [], []
+    for f in d.get("failures", []) or []:
+        f = dict(f)
+        f["name"] = name_fn(f)
+        k = next((k for k in known if re.search(k["obligation"], f["name"]) or (k.get("companion") and re.search(k["companion"], f["name"]))), None)
+        if k is not None:
+            if k["what"] not in hits:
+                hits.append(k["what"])
+        elif not (per_name and any(v["name"] == f["name"] for v in viol)):
+            viol.append(f)
+    run.bounded_parts.append({"name": stem, "label": "bounded", "what": what or f"replay/{script}", "bound": {k: v for k, v in d.items() if k != "failures"},
+                              "known_findings": hits, "violations": viol[:4]})
+    return d
 
 
 def failure_name(stem, f):
